@@ -2,6 +2,8 @@
   C07 line-protocol driver (the harness harness/c07_rng.cc answers the same requests):
 
     gen                                   -> the generated operand lists (diagnostic)
+    gstream <seed|default> <n>            -> as `stream`, by interpreting the translated seed / operator()
+    geq <A> <B>                           -> equal | different   (translated operator==)
     stream <seed|default> <n>             -> o0 o1 o2 o3 o(n-1) fold          (n ≥ 4)
     save <seed> <k>                       -> text <decimal text, blanks as _> | oob
     load <seedB> <j> <hex text> <n>       -> ok|fail|oob <state text> <o0 … o(n-1)>
@@ -11,6 +13,7 @@
 -/
 import Vita.C07.Stream
 import Vita.C07.Gen
+import Vita.C07.GenCode
 open Vita.C07 Vita.Rng
 
 def fold (h : UInt64) (o : UInt64) : UInt64 := h * 0x100000001B3 + o
@@ -78,6 +81,25 @@ def streamAnswer (e : Xo) (n : Nat) : String := Id.run do
     last := o
   return " ".intercalate ((firsts ++ [last, h]).map toString)
 
+/-- the same answer as `stream`, computed by interpreting the TRANSLATED code (GenCode.prog: seed, operator()) -/
+def gstreamAnswer (seed : UInt64) (n : Nat) : String := Id.run do
+  match U.seedOf GenCode.prog seed [0, 0, 0, 0] with
+  | none => return "undefined"
+  | some st0 =>
+    let mut st := st0
+    let mut h : UInt64 := 0
+    let mut firsts : List UInt64 := []
+    let mut last : UInt64 := 0
+    for i in [0:n] do
+      match U.nextOf GenCode.prog st with
+      | none => return "undefined"
+      | some (o, st') =>
+        st := st'
+        h := fold h o
+        if i < 4 then firsts := firsts ++ [o]
+        last := o
+    return " ".intercalate ((firsts ++ [last, h]).map toString)
+
 def stateText (e : Xo) : String :=
   match writeState Gen.writeItems e with
   | some t => showText t
@@ -102,6 +124,17 @@ def answer (line : String) : String :=
   | ["stream", s, n] =>
     match engineOf s, n.toNat? with
     | some e, some n => if n ≥ 4 then streamAnswer e n else "bad-op"
+    | _, _ => "bad-op"
+  | ["gstream", s, n] =>
+    match (if s = "default" then some Xo.defSeed else s.toNat?.map Nat.toUInt64), n.toNat? with
+    | some seed, some n => if n ≥ 4 then gstreamAnswer seed n else "bad-op"
+    | _, _ => "bad-op"
+  | ["geq", sa, sb] =>
+    match engineOf sa, engineOf sb with
+    | some a, some b =>
+      match U.eqOf GenCode.prog [a.s0, a.s1, a.s2, a.s3] [b.s0, b.s1, b.s2, b.s3] with
+      | some r => (if r then "equal" else "different") ++ (if a.take 4 = b.take 4 then " same4" else " diff4")
+      | none => "undefined"
     | _, _ => "bad-op"
   | ["save", s, k] =>
     match engineOf s, k.toNat? with
